@@ -212,7 +212,7 @@ Proof.
   clearbody acc. destruct acc as [[heap cells] n].
   simpl in HU'.
   assert (HBk : forall k, Best (offers (in_table st) (m_layers st) (m_lorder st) k) (cval heap cells k)).
-  { intros k. eapply Best_ext; [|apply (HB k (fun _ => False)); simpl; rewrite HC; intros x Hx; exact Hx].
+  { intros k. eapply Best_ext; [|apply (HB k (fun _ => False)); unfold cvalA, cval; rewrite HC; simpl; intros x Hx; exact Hx].
     intros o. unfold offers, T_side, T_layer, T_run. split.
     - intros [[]|(sd & _ & ln & Hln & r & Hr & Ho & Ht)]. exists sd, ln, r. auto.
     - intros (sd & ln & r & Hln & Hr & Ho & Ht). right. exists sd. split; [destruct sd; simpl; auto|].
@@ -225,7 +225,7 @@ Proof.
     exists b. split; [reflexivity|].
     (* its order is that of a run *)
     specialize (HBk k). unfold cval in HBk. rewrite Hk, Eh in HBk. simpl in HBk. destruct HBk as (Hs & _).
-    destruct Hs as (sd & ln & r & _ & Hr & Ho & _). inversion Ho. destruct (HL sd ln) as (HB1 & _). apply HB1. exact Hr.
+    destruct Hs as (sd & ln & r & _ & Hr & Ho & _). inversion Ho as [[Hbo Hba]]. destruct (HL sd ln) as (HB1 & _). rewrite Hbo. apply HB1. exact Hr.
   - intros k Hk. unfold attr_view.
     change (in_table {| m_nr := m_nr st; m_nc := m_nc st; m_heap := heap; m_cells := cells; m_extracted := true;
                         m_nruns := n; m_max := m_max st; m_layers := m_layers st; m_lorder := m_lorder st |})
@@ -332,4 +332,299 @@ Proof.
     simpl. destruct s; apply Step; reflexivity.
 Qed.
 
+
+(* the cells a stroke reaches are those whose edge it covers *)
+Lemma touched_iff_covers : forall inb s k,
+  kin inb k = true ->
+  (touch_along inb (s_side s) (s_row s) (s_col s) (Z.to_nat (s_len s)) k <-> covers_edge s (edge_of k) = true).
+Proof.
+  intros inb s k Hk.
+  assert (E : touch_along inb (s_side s) (s_row s) (s_col s) (Z.to_nat (s_len s)) k <->
+              touch_run inb (s_side s) (layer_line s) (stroke_run s 0) k).
+  { unfold touch_run, run_start, layer_line, stroke_run, s_origin. simpl. destruct (s_side s); simpl; tauto. }
+  rewrite E, (touch_run_edge inb _ _ _ _ Hk), covers_edge_iff. tauto.
+Qed.
+
+Lemma attr_view_eq : forall heap cells k,
+  attr_view heap cells k =
+  match cells k with
+  | Some o => match heap o with Some b => Some (bo_attrs b) | None => None end
+  | None => None
+  end.
+Proof. intros. unfold attr_view, cval. destruct (cells k) as [o|]; [destruct (heap o)|]; reflexivity. Qed.
+
+Lemma has_layer_in : forall st sd ln, has_layer st sd ln = true <-> In ln (m_lorder st sd).
+Proof.
+  intros st sd ln. unfold has_layer. rewrite existsb_exists. split.
+  - intros (x & Hx & E). apply Z.eqb_eq in E. subst x. exact Hx.
+  - intros H. exists ln. split; [exact H|apply Z.eqb_refl].
+Qed.
+
+Lemma J_stroke : forall g st s,
+  ghost_ok g -> J g st -> m_extracted st = true -> valid nr nc s = true -> 1 <= s_len s ->
+  J (ghost_step g s) (update_cells s (add_stroke objs s (see_obj objs s st))).
+Proof.
+  intros g st s HG HJ Hex Hval Hlen.
+  destruct HJ as ((Hnr & Hnc) & (Hmax & Hpos) & HL & HO & HU & HC). rewrite Hex in HC. destruct HC as (HCa & HCb).
+  set (n := s_obj s). set (u := User n). set (k := m_max st + 1).
+  set (heap1 := with_obj objs (m_heap st) s).
+  set (heap2 := stamp objs heap1 s k).
+  assert (Euu : oid_eqb u u = true) by (apply oid_eqb_eq; reflexivity).
+  assert (H1u : exists b1, heap1 u = Some b1 /\ bo_attrs b1 = objs n /\ bo_order b1 <= m_max st).
+  { unfold heap1, with_obj. fold n u. rewrite Euu. destruct (m_heap st u) as [b|] eqn:E.
+    - exists b. split; [reflexivity|]. apply (HU n b E).
+    - eexists. split; [reflexivity|]. simpl. split; [reflexivity|lia]. }
+  destruct H1u as (b1 & H1u & H1a & H1o).
+  assert (H2u : heap2 u = Some {| bo_attrs := objs n; bo_order := k |}).
+  { unfold heap2, stamp. fold n u. rewrite Euu, H1u, H1a. reflexivity. }
+  assert (H2o : forall o, o <> u -> heap2 o = m_heap st o).
+  { intros o Ho. unfold heap2, stamp, heap1, with_obj. fold n u.
+    destruct (oid_eqb o u) eqn:E; [apply oid_eqb_eq in E; contradiction|reflexivity]. }
+  assert (Hudec : forall o, o = u \/ o <> u).
+  { intros o. destruct (oid_eqb o u) eqn:E; [left; apply oid_eqb_eq; exact E|right; intros ->; rewrite Euu in E; discriminate]. }
+  (* objects the cells point to: still there, same attributes, below the new stamp unless u itself *)
+  assert (Href : forall k' o, m_cells st k' = Some o ->
+            exists b b', m_heap st o = Some b /\ heap2 o = Some b' /\ bo_attrs b' = bo_attrs b /\
+                         bo_order b' <= k /\ (o = u \/ bo_order b' < k)).
+  { intros k' o Hk'. destruct (HCa k' o Hk') as (b & Hb & Hbo). destruct (Hudec o) as [->|Hne].
+    - exists b. eexists. split; [exact Hb|]. split; [exact H2u|]. simpl. destruct (HU n b Hb) as (Ha & _).
+      split; [congruence|]. split; [lia|left; reflexivity].
+    - exists b, b. split; [exact Hb|]. split; [rewrite (H2o o Hne); exact Hb|]. split; [reflexivity|].
+      unfold k. split; [lia|right; lia]. }
+  (* the new run *)
+  assert (Hnew : new_run objs s k heap2 = stroke_run s k).
+  { unfold new_run, stroke_run. fold n u. rewrite H2u. reflexivity. }
+  (* the cells *)
+  set (st2 := add_stroke objs s (see_obj objs s st)).
+  assert (Hinb : in_table st2 = in_table st) by reflexivity.
+  assert (Hdom : dominates heap2 (m_cells st) u).
+  { intros k' cur Hk'. destruct (Href k' cur Hk') as (b & b' & _ & Hb' & _ & _ & [->|Hlt]); [left; reflexivity|].
+    right. unfold order_of. rewrite Hb', H2u. simpl. exact Hlt. }
+  destruct (set_along_dom heap2 (in_table st) (s_side s) u (Z.to_nat (s_len s)) (m_cells st) (s_row s) (s_col s) Hdom)
+    as (Pc & _).
+  assert (Hk1 : g_max g + 1 = k) by (unfold k; lia).
+  unfold J, ghost_step. rewrite Hval. simpl.
+  change (with_obj objs (m_heap st) s) with heap1. change (m_max st + 1) with k.
+  change (stamp objs heap1 s k) with heap2. rewrite Hk1, Hex.
+  split; [split; assumption|]. split; [split; [reflexivity|unfold k; lia]|].
+  split; [|split; [|split; [|split]]].
+  - (* layers *)
+    intros sd ln. unfold upd_layers.
+    destruct (side_eqb sd (s_side s) && (ln =? layer_line s)) eqn:E.
+    + apply andb_true_iff in E. destruct E as (E1 & E2). apply side_eqb_eq in E1. apply Z.eqb_eq in E2. subst sd ln.
+      rewrite Hnew. change (has_layer (see_obj objs s st) (s_side s) (layer_line s)) with (has_layer st (s_side s) (layer_line s)).
+      destruct (has_layer st (s_side s) (layer_line s)) eqn:Eh.
+      * apply patch_layer_ok; [apply HL|exact Hlen|reflexivity].
+      * apply single_layer_ok; [|exact Hlen|reflexivity].
+        destruct (m_layers st (s_side s) (layer_line s)) as [|x rest] eqn:El.
+        -- apply (layer_ok_nil_none (m_max st)). rewrite <- El. apply HL.
+        -- exfalso. assert (Hin : In (layer_line s) (m_lorder st (s_side s))) by (apply HO; rewrite El; discriminate).
+           apply has_layer_in in Hin. rewrite Hin in Eh. discriminate.
+    + apply layer_ok_mono with (M := m_max st); [unfold k; lia|apply HL].
+  - (* layer list *)
+    intros sd ln. unfold upd_layers. change (has_layer (see_obj objs s st) (s_side s) (layer_line s)) with (has_layer st (s_side s) (layer_line s)).
+    destruct (has_layer st (s_side s) (layer_line s)) eqn:Eh.
+    + destruct (side_eqb sd (s_side s) && (ln =? layer_line s)) eqn:E.
+      * intros _. apply andb_true_iff in E. destruct E as (E1 & E2). apply side_eqb_eq in E1. apply Z.eqb_eq in E2.
+        subst sd ln. apply has_layer_in. exact Eh.
+      * apply HO.
+    + unfold upd_lorder. destruct (side_eqb sd (s_side s)) eqn:E1.
+      * simpl. destruct (ln =? layer_line s) eqn:E2.
+        -- intros _. apply Z.eqb_eq in E2. subst ln. apply in_or_app. right. left. reflexivity.
+        -- intros H. apply in_or_app. left. apply side_eqb_eq in E1. subst sd. apply HO. exact H.
+      * simpl. apply HO.
+  - (* the caller's objects *)
+    intros m b Hb. destruct (Hudec (User m)) as [Em|Hne].
+    + rewrite Em, H2u in Hb. inversion Hb; subst b. simpl. inversion Em. split; [reflexivity|lia].
+    + rewrite (H2o _ Hne) in Hb. destruct (HU m b Hb) as (Ha & Hle). split; [exact Ha|unfold k; lia].
+  - (* every referenced object exists, below the maximum *)
+    intros k' o Hk'. change (User (s_obj s)) with u in Hk'. rewrite Hinb in Hk'.
+    destruct (classic_touch (in_table st) (s_side s) (s_row s) (s_col s) (Z.to_nat (s_len s)) k') as [Ht|Hn].
+    + rewrite (proj1 (Pc k') Ht) in Hk'. inversion Hk'; subst o. eexists. split; [exact H2u|simpl; lia].
+    + rewrite (proj2 (Pc k') Hn) in Hk'. destruct (Href k' o Hk') as (b & b' & _ & Hb' & _ & Hle & _). exists b'. split; assumption.
+  - (* what each cell side of the table shows *)
+    intros k' Hk'. change (kin (in_table st) k' = true) in Hk'.
+    rewrite attr_view_eq. change (User (s_obj s)) with u. rewrite Hinb.
+    destruct (classic_touch (in_table st) (s_side s) (s_row s) (s_col s) (Z.to_nat (s_len s)) k') as [Ht|Hn].
+    + rewrite (proj1 (Pc k') Ht), H2u. simpl.
+      apply (touched_iff_covers _ _ _ Hk') in Ht. rewrite Ht. reflexivity.
+    + rewrite (proj2 (Pc k') Hn).
+      assert (Hc : covers_edge s (edge_of k') = false).
+      { destruct (covers_edge s (edge_of k')) eqn:E; [|reflexivity]. exfalso. apply Hn. apply (touched_iff_covers _ _ _ Hk'). exact E. }
+      rewrite Hc. rewrite <- (HCb k' Hk'), attr_view_eq.
+      destruct (m_cells st k') as [o|] eqn:Eo; [|reflexivity].
+      destruct (Href k' o Eo) as (b & b' & Hb & Hb' & Ha & _). rewrite Hb, Hb', Ha. reflexivity.
+Qed.
+
+(* ---------- steps and histories ---------- *)
+Lemma J_reopen : forall g st, J g st -> J g (reopen st).
+Proof.
+  intros g st (Hdim & Hmax & HL & HO & HU & _). unfold J. simpl.
+  split; [exact Hdim|]. split; [exact Hmax|]. split; [exact HL|]. split; [exact HO|]. split; [exact HU|]. reflexivity.
+Qed.
+
+Definition lens_ok (ops : list bop) : Prop := Forall (fun s => 1 <= s_len s) (strokes_of ops).
+
+Lemma J_step : forall g st o,
+  ghost_ok g -> J g st ->
+  match o with BStroke s => 1 <= s_len s | _ => True end ->
+  J (match o with BStroke s => ghost_step g s | _ => g end) (bstep objs st o).
+Proof.
+  intros g st o HG HJ Hl. destruct o as [s| |]; simpl.
+  - unfold do_stroke. destruct HJ as (Hdim & Hrest) eqn:EJ. destruct Hdim as (Hnr & Hnc). rewrite Hnr, Hnc.
+    destruct (valid nr nc s) eqn:Ev.
+    + destruct (J_extract g st HG HJ) as (HJ' & Hex). apply J_stroke; assumption.
+    + unfold ghost_step. rewrite Ev. exact HJ.
+  - apply J_extract; assumption.
+  - apply J_reopen; assumption.
+Qed.
+
+Lemma J_run : forall ops g st,
+  ghost_ok g -> J g st -> lens_ok ops ->
+  J (ghost_run (strokes_of ops) g) (brun objs ops st).
+Proof.
+  induction ops as [|o ops IH]; intros g st HG HJ Hl; [exact HJ|].
+  unfold brun. simpl fold_left. fold (brun objs ops (bstep objs st o)).
+  destruct o as [s| |].
+  - simpl strokes_of. unfold lens_ok in Hl. simpl in Hl. apply Forall_cons_iff in Hl. destruct Hl as (Hs & Hl).
+    simpl. apply IH; [apply ghost_step_ok; exact HG| |exact Hl].
+    apply (J_step g st (BStroke s) HG HJ Hs).
+  - simpl strokes_of. apply IH; [exact HG| |exact Hl]. apply (J_step g st BRead HG HJ I).
+  - simpl strokes_of. apply IH; [exact HG| |exact Hl]. apply (J_step g st BReopen HG HJ I).
+Qed.
+
+Lemma J_empty : forall max0, 0 <= max0 -> J (ghost0 max0) (empty_table nr nc max0).
+Proof.
+  intros max0 H. unfold J. simpl. split; [split; reflexivity|]. split; [split; [reflexivity|exact H]|].
+  split; [intros; apply layer_ok_nil|]. split; [intros sd ln Hne; exfalso; apply Hne; reflexivity|].
+  split; [intros; discriminate|reflexivity].
+Qed.
+
+Lemma J_view : forall g st k,
+  ghost_ok g -> J g st -> kin (in_table st) k = true ->
+  view st k = option_map snd (g_edges g (edge_of k)).
+Proof.
+  intros g st k HG HJ Hk. destruct (J_extract g st HG HJ) as (HJ' & Hex).
+  unfold view. rewrite <- attr_view_eq.
+  destruct HJ' as (_ & _ & _ & _ & _ & HC). rewrite Hex in HC. destruct HC as (_ & HCb).
+  apply HCb. unfold ensure_extracted. destruct (m_extracted st); [exact Hk|].
+  destruct (fold_left _ _ _) as [[h c] n]. exact Hk.
+Qed.
+
+(* ---------- the theorems ---------- *)
+Definition in_tbl (k : key) : Prop := let '(r, c, _) := k in 0 <= r < nr /\ 0 <= c < nc.
+
+Lemma in_tbl_kin : forall st k, m_nr st = nr -> m_nc st = nc -> in_tbl k -> kin (in_table st) k = true.
+Proof.
+  intros st [[r c] sd] Hr Hc (H1 & H2). simpl. unfold in_table. rewrite Hr, Hc.
+  rewrite !andb_true_iff, !Z.leb_le, !Z.ltb_lt. lia.
+Qed.
+
+Theorem borders_lww_lemma : forall ops max0 k,
+  0 <= max0 -> lens_ok ops -> in_tbl k ->
+  view (brun objs ops (empty_table nr nc max0)) k = lww objs nr nc (strokes_of ops) (edge_of k).
+Proof.
+  intros ops max0 k H0 Hl Hk.
+  pose proof (J_run ops (ghost0 max0) (empty_table nr nc max0) (ghost0_ok max0) (J_empty max0 H0) Hl) as HJ.
+  pose proof (ghost_run_ok (strokes_of ops) (ghost0 max0) (ghost0_ok max0)) as HG.
+  rewrite (J_view _ _ k HG HJ).
+  - unfold lww. apply ghost_edges_lww. intros e. reflexivity.
+  - destruct HJ as ((Hr & Hc) & _). apply in_tbl_kin; assumption.
+Qed.
+
 End Main.
+
+(* ---------- corollaries ---------- *)
+Lemma strokes_of_map : forall h, strokes_of (map BStroke h) = h.
+Proof. induction h as [|s h IH]; simpl; [reflexivity|rewrite IH; reflexivity]. Qed.
+
+Lemma strokes_of_app : forall a b, strokes_of (a ++ b) = strokes_of a ++ strokes_of b.
+Proof.
+  induction a as [|o a IH]; intros b; simpl; [reflexivity|]. destruct o; simpl; rewrite IH; reflexivity.
+Qed.
+
+Theorem memory_is_lww_lemma : forall (objs : nat -> attrs) (nr nc : Z) (h : list stroke) (max0 : Z) (k : key),
+  0 <= max0 -> Forall (fun s => 1 <= s_len s) h -> in_tbl nr nc k ->
+  view (brun objs (map BStroke h) (empty_table nr nc max0)) k = lww objs nr nc h (edge_of k).
+Proof.
+  intros objs nr nc h max0 k H0 Hl Hk.
+  rewrite (borders_lww_lemma objs nr nc (map BStroke h) max0 k H0); [rewrite strokes_of_map; reflexivity| |exact Hk].
+  unfold lens_ok. rewrite strokes_of_map. exact Hl.
+Qed.
+
+Theorem reload_is_lww_lemma : forall (objs : nat -> attrs) (nr nc : Z) (h : list stroke) (max0 : Z) (k : key),
+  0 <= max0 -> Forall (fun s => 1 <= s_len s) h -> in_tbl nr nc k ->
+  view (reopen (brun objs (map BStroke h) (empty_table nr nc max0))) k = lww objs nr nc h (edge_of k).
+Proof.
+  intros objs nr nc h max0 k H0 Hl Hk.
+  change (reopen (brun objs (map BStroke h) (empty_table nr nc max0)))
+    with (bstep objs (brun objs (map BStroke h) (empty_table nr nc max0)) BReopen).
+  assert (E : bstep objs (brun objs (map BStroke h) (empty_table nr nc max0)) BReopen =
+              brun objs (map BStroke h ++ [BReopen]) (empty_table nr nc max0)).
+  { unfold brun. rewrite fold_left_app. reflexivity. }
+  rewrite E, (borders_lww_lemma objs nr nc _ max0 k H0); [| |exact Hk].
+  - rewrite strokes_of_app, strokes_of_map. simpl. rewrite app_nil_r. reflexivity.
+  - unfold lens_ok. rewrite strokes_of_app, strokes_of_map. simpl. rewrite app_nil_r. exact Hl.
+Qed.
+
+Theorem shared_edge_lemma : forall (objs : nat -> attrs) (nr nc : Z) (ops : list bop) (max0 r c : Z),
+  0 <= max0 -> lens_ok ops ->
+  (0 <= r -> r + 1 < nr -> 0 <= c < nc ->
+     view (brun objs ops (empty_table nr nc max0)) (r, c, SBottom) =
+     view (brun objs ops (empty_table nr nc max0)) (r + 1, c, STop)) /\
+  (0 <= r < nr -> 0 <= c -> c + 1 < nc ->
+     view (brun objs ops (empty_table nr nc max0)) (r, c, SRight) =
+     view (brun objs ops (empty_table nr nc max0)) (r, c + 1, SLeft)).
+Proof.
+  intros objs nr nc ops max0 r c H0 Hl. split; intros A B C.
+  - rewrite !(borders_lww_lemma objs nr nc ops max0 _ H0 Hl); [reflexivity| |]; simpl; lia.
+  - rewrite !(borders_lww_lemma objs nr nc ops max0 _ H0 Hl); [reflexivity| |]; simpl; lia.
+Qed.
+
+Theorem read_is_pure_lemma : forall st : mem, persisted (read_borders st) = persisted st.
+Proof.
+  intros st. unfold read_borders, ensure_extracted, persisted. destruct (m_extracted st); [reflexivity|].
+  destruct (fold_left _ _ _) as [[h c] n]. reflexivity.
+Qed.
+
+(* the pinned order: two strokes over the same two edges *)
+Definition pin_objs : nat -> attrs := fun n => [N.of_nat n].
+Definition pin_hist : list stroke :=
+  [ {| s_side := STop; s_row := 1; s_col := 1; s_len := 2; s_obj := 0 |};
+    {| s_side := STop; s_row := 1; s_col := 1; s_len := 2; s_obj := 1 |} ].
+
+Lemma pinned_memory_refuted :
+  exists (objs : nat -> attrs) (h : list stroke) (k : key),
+    in_tbl 6 6 k /\ Forall (fun s => 1 <= s_len s) h /\
+    view (Pinned.brun objs (map BStroke h) (empty_table 6 6 2)) k <> lww objs 6 6 h (edge_of k) /\
+    view (reopen (Pinned.brun objs (map BStroke h) (empty_table 6 6 2))) k = lww objs 6 6 h (edge_of k).
+Proof.
+  exists pin_objs, pin_hist, (1, 1, STop).
+  split; [simpl; lia|]. split; [repeat constructor; simpl; lia|].
+  split.
+  - assert (E1 : view (Pinned.brun pin_objs (map BStroke pin_hist) (empty_table 6 6 2)) (1, 1, STop) = Some [0%N])
+      by (vm_compute; reflexivity).
+    assert (E2 : lww pin_objs 6 6 pin_hist (edge_of (1, 1, STop)) = Some [1%N]) by (vm_compute; reflexivity).
+    rewrite E1, E2. discriminate.
+  - vm_compute. reflexivity.
+Qed.
+
+Definition ow_rs : list run :=
+  [ {| r_origin := 0; r_length := 2; r_order := 3; r_attrs := [65%N] |};
+    {| r_origin := 2; r_length := 4; r_order := 4; r_attrs := [66%N] |} ].
+Definition ow_new : run := {| r_origin := 1; r_length := 3; r_order := 5; r_attrs := [67%N] |}.
+
+Lemma runs_overlap_witness :
+  exists (rs : list run) (newr : run) (a b : run) (p : Z),
+    sorted_by_origin rs /\ In a (patch_layer newr rs) /\ In b (patch_layer newr rs) /\ a <> b /\
+    covers a p /\ covers b p.
+Proof.
+  exists ow_rs, ow_new, ow_new, {| r_origin := 2; r_length := 4; r_order := 4; r_attrs := [66%N] |}, 2.
+  assert (E : patch_layer ow_new ow_rs =
+              [ {| r_origin := 0; r_length := 2; r_order := 3; r_attrs := [65%N] |}; ow_new;
+                {| r_origin := 2; r_length := 4; r_order := 4; r_attrs := [66%N] |} ]) by (vm_compute; reflexivity).
+  rewrite E. split.
+  - simpl. split; [intros y [<-|[]]; simpl; lia|split; [intros ? []|exact I]].
+  - split; [right; left; reflexivity|]. split; [right; right; left; reflexivity|].
+    split; [discriminate|]. unfold covers; simpl. lia.
+Qed.
